@@ -8,7 +8,7 @@ For each one: apply to /repo's working tree, run the pinned test-suite (a mutant
 that the 59 tests kill is of no interest here), then build the harness + tool once and run all twenty quick
 checks (NOBUILD) in parallel; /repo is restored straight afterwards.
 
-usage: tools/automutate.py --budget-min 90 [--seed 1] [--max 400] [--files sentence.rs,messages/mod.rs]
+usage: tools/automutate.py --budget-min 90 [--seed 1] [--max 400] [--skip N] [--files sentence.rs,messages/mod.rs]
 Result: mutants/RESULTS-auto.md (appended per mutant, so an interrupted run keeps what it has).
 """
 import re, sys, os, random, time, glob, subprocess
@@ -108,11 +108,14 @@ def main():
     budget = int(args[args.index('--budget-min') + 1]) if '--budget-min' in args else 60
     seed = int(args[args.index('--seed') + 1]) if '--seed' in args else 1
     maxn = int(args[args.index('--max') + 1]) if '--max' in args else 100000
+    skip = int(args[args.index('--skip') + 1]) if '--skip' in args else 0
     only = args[args.index('--files') + 1].split(',') if '--files' in args else None
     if not S.clean():
         print('refusing: /repo working tree is not clean'); sys.exit(2)
     files = sorted(glob.glob(f'{REPO}/src/**/*.rs', recursive=True))
-    files = [f for f in files if '/bin/' not in f or True]
+    # a file that no `mod` declaration includes is not compiled (src/messages/group_assignment_command.rs)
+    modtext = open(f'{REPO}/src/messages/mod.rs').read() + open(f'{REPO}/src/lib.rs').read()
+    files = [f for f in files if '/bin/' in f or os.path.basename(f) in ('lib.rs', 'mod.rs') or re.search(r'\bmod\s+' + re.escape(os.path.basename(f)[:-3]) + r'\b', modtext)]
     if only:
         files = [f for f in files if any(f.endswith(o) for o in only)]
     cands = []
@@ -129,15 +132,23 @@ def main():
     structural = [c for c in uniq if not c[2][0].isdigit()]
     literal = [c for c in uniq if c[2][0].isdigit()]
     rng.shuffle(structural); rng.shuffle(literal)
-    cands = structural + literal
+    cands = (structural + literal)[skip:]
     print(f'{len(cands)} candidate mutants in {len(files)} files; budget {budget} min', flush=True)
     out = f'{S.VERIF}/mutants/RESULTS-auto.md'
     new_file = not os.path.exists(out)
     fh = open(out, 'a')
     if new_file:
         fh.write('| location | operator | original | mutated | outcome | detected by |\n|---|---|---|---|---|---|\n')
+    # mutants already recorded by an earlier run are not repeated
+    recorded = set()
+    for l in open(out):
+        if l.startswith('| src/'):
+            c = [x.strip() for x in l.split('|')]
+            recorded.add((c[1], c[2], c[4]))
     t0 = time.time(); done = 0; tally = {}
     for (path, i, op, old, new) in cands:
+        if (path.replace(REPO + '/', '') + f':{i+1}', op, f"`{new.strip()[:90]}`") in recorded:
+            continue
         if time.time() - t0 > budget * 60 or done >= maxn:
             break
         apply(path, i, new)
